@@ -11,6 +11,11 @@ CLAIMS = {
   note="Trusted: Coq kernel; the hand-written model Signer.v (tied by differential runs, bounded by generator quality); secp256k1 and tendermint canonical sign-bytes encoding; atomicity of tempfile.WriteFileAtomic. No axioms (Print Assumptions: closed).",
   technique="Rocq proof by induction over request/reload/crash sequences + model-vs-SFilePV correspondence (vm_compute)",
   ref="DESIGN.md section 7 C20"),
+ "C18": dict(
+  text="C18_ledger_refines (Props/C18.v): for EVERY finite sequence of set/get/delete/cancel/iterate/commit/historical-read/reopen operations on both overlays the concrete ledger model (the Go containers gotItems/updatedItems/removedKeys of both overlays, with duplicates in removedKeys, read-through caching, DelFinality's side effect on the mempool overlay, remove-then-set commit in descending key order) produces the observations of the abstract versioned store LedgerSpec (committed versions + per-overlay pending delete count / pending write), by a simulation relation; corollaries: mempool-overlay operations never change any consensus-side result and are discarded by commit, commit persists exactly what GetFinality returned as version+1, history is immutable across later commits and reopen, the tree operations of a commit are independent of map iteration order. C18_ledger_buggy_refuted shows the pre-fix get order violates the spec. Every run drives two real FinalityLedger instances on generated sequences and compares each return value with the abstract store (the property) and with the concrete model including the hook-recorded tree-operation order; root hashes of the two instances must agree.",
+  note="Trusted: Coq kernel; Ledger.v as a model of ledger/*.go (tied on every run by differential runs incl. tree-op order via the verif hook); IAVL/goleveldb modelled as immutable versioned maps. No axioms. The defect found (set-after-delete invisible until commit) was repaired by fix commit 64edcb9; the model follows the repaired code.",
+  technique="Rocq refinement proof (simulation) ledger model -> overlay-map spec over all op sequences + model/spec-vs-FinalityLedger correspondence",
+  ref="DESIGN.md section 7 C18"),
  "C03": dict(
   text="Props/C03.v: RLP encoding is injective (prefix-free) on items below 2^64 bytes; the field->RLP map of a transaction is injective on decoded transactions of all eight types (bit-cast integer fields included); the signing preimage determines chain id and all signed fields for every chain id not containing ') Signed Message:\\n' (C03_chainid_hypothesis_needed exhibits the collision otherwise); C03_holds: with idealised signature recovery and hashing stated as hypotheses, a signature made for (chain0, tx0) by key k verifies for (chain, tx) only if nothing was altered and tx.From is k's address. The model's preimage is compared byte for byte with the real PreImageToSignTrxRLP on generated vectors, and every single-field alteration of honestly signed transactions is passed to the real VerifyTrxRLP. The no-effect half of the statement is C05; delivery of tampered transactions is exercised by the application-level checks.",
   note="Trusted: Coq kernel; Rlp.v/Preimage.v as a model of go-ethereum rlp + trx.go encoders (tied byte for byte on generated vectors); ECDSA/SHA-256 idealised as explicit hypotheses; chain-id hypothesis; payload kind determined by Type (true of both wire decoders). No axioms.",
